@@ -237,6 +237,36 @@ def r06f(F):
 		out.append(Result('06.f', ok, ('ok:' if ok else 'unwritten:') + fld, 'OnchainTxHandler.%s is serialized by OnchainTxHandler::write' % fld, 1))
 	return out
 
+def r06h(F):
+	"""claims stay valid across partial spends and reorganisations"""
+	import chainrules
+	out = []
+	# (i) after a counterparty transaction spends part of an aggregated claim, the remainder re-queued for broadcast is the LATEST
+	#     state of the request: the per-block candidate map is written with an overwriting insert only
+	for fn in (OTX + 'update_claims_view_from_matched_txn', OTX + 'blocks_disconnected'):
+		fu = F.func(fn)
+		ex = Expr(fu)
+		cand = {l for l, nm in fu.vars.items() if nm == 'bump_candidates'}
+		# name-free fallback: the map local that receives (claim_id, request.clone()) inserts
+		ins = []
+		other = []
+		for b, ci in fu.calls():
+			f = norm(ci.get('f') or '')
+			if not ci['args']:
+				continue
+			r = ex.of_operand(ci['args'][0])
+			while r[0] in ('ref', 'deref'):
+				r = r[1]
+			if r[0] == 'local' and r[1] in cand:
+				tail = f.rsplit('::', 1)[-1]
+				(ins if tail == 'insert' else other).append((tail, fu.line_of(b)))
+		muts = [(t, l) for t, l in other if t in ('entry', 'get_mut', 'remove', 'retain', 'extend', 'clear', 'or_insert', 'or_insert_with', 'try_insert', 'raw_entry_mut')]
+		ok = len(ins) >= 1 and not muts
+		out.append(Result('06.h', ok, ('ok:' if ok else 'stale:') + 'bump-candidates-overwritten@' + fn.rsplit('::', 1)[-1], '%s: the candidate claim re-queued for (re)broadcast is always overwritten with the current state of the request (HashMap::insert x%d%s)' % (fn.rsplit('::', 1)[-1], len(ins), '' if not muts else '; other mutators: %s - a kept earlier snapshot would still spend outpoints that a later transaction of the same block took' % muts), len(ins) + len(other), where=F.where(fn)))
+	# (ii) reorganisation boundary (shared with C11.d): an event confirmed in the block that stays the tip is not resurrected
+	out += chainrules.reorg_boundary(F, '06.h')
+	return out
+
 RULES = [
 	('06.a', 'per-commitment HTLC data is insert-only; revocation only blanks the HTLC source', r06a),
 	('06.b', 'revocation secrets and on-chain commitment records are add-only', r06b),
@@ -245,4 +275,5 @@ RULES = [
 	('06.e', 'every produced package reaches the on-chain claim handler', r06e),
 	('06.f', 'retention fields are persisted', r06f),
 	('06.g', 'revoked package variants are wired to the justice signer methods', r06g),
+	('06.h', 'justice claims stay valid: re-queued claims carry the latest request state; reorg boundary keeps confirmed spends', r06h),
 ]
